@@ -601,19 +601,17 @@ class SSHStreamSession(Generic[AnyStr]):
         if separator is _NEWLINE:
             seplen = 1
             separators = cast(AnyStr, '\n' if self._encoding else b'\n')
-            pat = re.compile(separators)
+            pats = [re.compile(separators)]
         elif isinstance(separator, (bytes, str)):
             seplen = len(separator)
-            pat = re.compile(re.escape(cast(AnyStr, separator)))
+            pats = [re.compile(re.escape(cast(AnyStr, separator)))]
         elif isinstance(separator, Pattern):
             seplen = max_separator_len
-            pat = cast(Pattern[AnyStr], separator)
+            pats = [cast(Pattern[AnyStr], separator)]
         else:
-            bar = cast(AnyStr, '|' if self._encoding else b'|')
             seplist = list(cast(Iterable[AnyStr], separator))
             seplen = max(len(sep) for sep in seplist)
-            separators = bar.join(re.escape(sep) for sep in seplist)
-            pat = re.compile(separators)
+            pats = [re.compile(re.escape(sep)) for sep in seplist]
 
         curbuf = 0
         buflen = 0
@@ -639,9 +637,13 @@ class SSHStreamSession(Generic[AnyStr]):
                     buf += newbuf
                     start = 0 if seplen == 0 else max(buflen + 1 - seplen, 0)
 
-                    match = pat.search(buf, start)
-                    if match:
-                        idx = match.end()
+                    # Return at the separator which ends first, so the
+                    # result doesn't depend on how the data was split up
+                    matches = [pat.search(buf, start) for pat in pats]
+                    ends = [match.end() for match in matches if match]
+
+                    if ends:
+                        idx = min(ends)
                         recv_buf[:curbuf] = []
                         recv_buf[0] = buf[idx:]
                         buf = buf[:idx]
